@@ -353,11 +353,51 @@ func rulesC06(c *Ctx) {
 		}
 		var rng *ssa.Range
 		rngFn := commit
+		// a journal may be ranged over more than once (a second loop that empties it after a
+		// successful replay): the replay loop is the one whose key reaches the remote operation
+		appliesOp := func(r *ssa.Range, g *ssa.Function) bool {
+			var key ssa.Value
+			for _, rf := range *r.Referrers() {
+				if nx, ok := rf.(*ssa.Next); ok {
+					for _, e := range resultN(nx, 1) {
+						key = e
+					}
+				}
+			}
+			if key == nil {
+				return false
+			}
+			for _, u := range mutatingUsesOf(g, remote) {
+				if u.ci.Instr == nil {
+					continue
+				}
+				match := false
+				for _, o := range opsOf[roles.class[jn]] {
+					if u.what == o {
+						match = true
+					}
+				}
+				if !match {
+					continue
+				}
+				patharg := u.ci.Arg(0)
+				if u.what == "StreamCopy(dest)" {
+					patharg = u.ci.Arg(2)
+				}
+				if resolve(patharg) == key || hasOrigin(Origins(patharg, FlowOpts{}), func(o Origin) bool { return o.Val == key }) {
+					return true
+				}
+			}
+			return false
+		}
+		chosen := false
 		for _, g := range group {
+			g := g
 			eachInstr(g, func(_ *ssa.BasicBlock, _ int, in ssa.Instruction) {
-				if r, ok := in.(*ssa.Range); ok {
+				if r, ok := in.(*ssa.Range); ok && !chosen {
 					if n, _ := fieldLoadName(r.X); n == jn {
 						rng, rngFn = r, g
+						chosen = appliesOp(r, g)
 					}
 				}
 			})
